@@ -326,3 +326,125 @@ Qed.
 
 Theorem al_of_awf a rs : relations_okb rs = true -> awf a (al_of rs) = true.
 Proof. intros H. unfold awf. rewrite (al_of_shape a rs H). apply (al_of_render rs H). Qed.
+
+(* ================================================================== the conversion back on the tree of the layout *)
+Lemma vpieces_text s : version_text_ok s = true -> rttext_of (map vpiece_tok (vpieces s)) = s.
+Proof.
+  intros H. pose proof (lex_vpieces (length s) s [] [] (le_n _) H I eq_refl) as L. rewrite !app_nil_r in L.
+  apply (rlex_lexable _ _ L).
+Qed.
+
+Lemma conv_version_arel rr last : arel_ok rr = true ->
+  conv_version (arel_tree rr last) =
+  match a_ver rr with
+  | None => Ok None
+  | Some v =>
+    match rttext_of (map vpiece_tok (av_ver v)) with
+    | [] => Ok None
+    | vt => match vc_of_str (av_op v) with
+            | None => Panic 11%N
+            | Some o => match dv_parse vt with Some x => Ok (Some (o, x)) | None => Panic 12%N end
+            end
+    end
+  end.
+Proof.
+  intros Hok. unfold arel_ok in Hok. andb_split Hok.
+  unfold conv_version. rewrite fn_arel by discriminate. cbn [rkind_eqb rkind_code N.eqb Pos.eqb].
+  destruct (a_ver rr) as [v|]; cbn [option_map opt_ok] in *; [|reflexivity].
+  destruct (aver_ok_inv v W2) as (V0 & V1 & V2 & V3 & _ & _).
+  cbn [aver_node children first_node_of_kind]. rewrite first_node_app, fn_elems.
+  cbn [app first_node_of_kind rkind_eqb rkind_code N.eqb Pos.eqb].
+  assert (E : version_text_of
+      (Tok L_PARENS [40%N] :: elems (av_ws1 v) ++ Node CONSTRAINT (elems (map op_tok (av_op v)))
+        :: elems (av_ws2 v) ++ elems (map vpiece_tok (av_ver v)) ++ elems (av_ws3 v) ++ [Tok R_PARENS [41%N]])
+      = rttext_of (map vpiece_tok (av_ver v))).
+  { change (version_text_of (Tok L_PARENS [40%N] :: ?x)) with (version_text_of x).
+    rewrite version_text_app, (version_text_w _ V1). cbn [app].
+    change (version_text_of (Node CONSTRAINT ?l :: ?x)) with (version_text_of x).
+    rewrite !version_text_app, (version_text_w _ V2), (version_text_w _ V3), version_text_pieces. cbn [app]. rewrite app_nil_r. reflexivity. }
+  rewrite E, text_ops. reflexivity.
+Qed.
+
+Lemma tk_join_flat x l : RelLossyP.tk_join (x :: l) = x ++ flat_map (fun y => tSP :: y) l.
+Proof.
+  revert x; induction l as [|y r IH]; intros x; [cbn; rewrite app_nil_r; reflexivity|].
+  rewrite RelLossyP.tk_join_cons2 by discriminate. rewrite IH. cbn [flat_map app]. reflexivity.
+Qed.
+
+(* architectures *)
+Lemma arch_fold_term t X : arch_fold (elems (RelLossyP.term_toks t) ++ X) false = RelLossyP.term_text t :: arch_fold X false.
+Proof. destruct t as [[|] n]; reflexivity. Qed.
+Lemma arch_fold_terms_sp l : forall X,
+  arch_fold (elems (flat_map (fun y => tSP :: y) (map RelLossyP.term_toks l)) ++ X) false
+  = map RelLossyP.term_text l ++ arch_fold X false.
+Proof.
+  induction l as [|t r IH]; intros X; [reflexivity|]. cbn [map flat_map]. rewrite elems_app. 
+  change (elems (tSP :: RelLossyP.term_toks t)) with (Tok WHITESPACE [32%N] :: elems (RelLossyP.term_toks t)).
+  cbn [app]. change (arch_fold (Tok WHITESPACE [32%N] :: ?Y) false) with (arch_fold Y false).
+  rewrite <- app_assoc, arch_fold_term, IH. reflexivity.
+Qed.
+Lemma arch_fold_al a : forallb arch_ok a = true -> arch_fold (children (agroup_node (al_archs a))) false = a.
+Proof.
+  intros Ha. destruct (RelLossyP.map_arch_terms a Ha) as [E _].
+  transitivity (map RelLossyP.term_text (map RelLossyP.arch_term a)); [|exact E]. clear E Ha.
+  unfold agroup_node, agroup_body_toks, al_archs. cbn [children ag_atoms ag_ws1 app]. rewrite atoms_toks.
+  change (elems ((L_BRACKET, [91%N]) :: ?x)) with (Tok L_BRACKET [91%N] :: elems x).
+  change (arch_fold (Tok L_BRACKET [91%N] :: ?Y) false) with (arch_fold Y false).
+  destruct (map RelLossyP.arch_term a) as [|t r]; [reflexivity|].
+  cbn [map]. rewrite tk_join_flat, !elems_app, <- app_assoc, arch_fold_term, arch_fold_terms_sp.
+  cbn. rewrite app_nil_r. reflexivity.
+Qed.
+
+(* profiles: the PROFILES node the parser builds is the one the builder builds *)
+Lemma elems_term_prof p : elems (RelLossyP.term_toks (RelLossyP.prof_term p)) = RelConvP.term_toks_e (eprofile_of p).
+Proof. destruct p; reflexivity. Qed.
+Lemma elems_terms_sp g : forall i,
+  elems (flat_map (fun y => tSP :: y) (map RelLossyP.term_toks (map RelLossyP.prof_term g))) = RelEdit.profile_toks (S i) (map eprofile_of g).
+Proof.
+  induction g as [|p r IH]; intros i; [reflexivity|]. cbn [map flat_map]. rewrite elems_app, (IH (S i)).
+  change (elems (tSP :: ?x)) with (Tok WHITESPACE [32%N] :: elems x). rewrite elems_term_prof.
+  rewrite RelConvP.profile_toks_S_cons. reflexivity.
+Qed.
+Lemma pgroup_children g : children (pgroup_node (al_group g)) = children (RelEdit.profiles_node (map eprofile_of g)).
+Proof.
+  unfold pgroup_node, pgroup_body_toks, al_group, RelEdit.profiles_node. cbn [children pg_terms pg_ws1 app]. rewrite pterms_toks.
+  change (elems ((L_ANGLE, [60%N]) :: ?x)) with (Tok L_ANGLE [60%N] :: elems x). f_equal.
+  rewrite elems_app. change (elems [(R_ANGLE, [62%N])]) with [Tok R_ANGLE [62%N]]. f_equal.
+  destruct g as [|p r]; [reflexivity|]. cbn [map]. rewrite tk_join_flat, elems_app, elems_term_prof, (elems_terms_sp r 0).
+  destruct p; reflexivity.
+Qed.
+
+Theorem to_lossy_arel bp last r : relation_okb r = true -> to_lossy (arel_tree (al_rel bp r) last) = Ok r.
+Proof.
+  intros Hok. pose proof (al_rel_ok bp r Hok) as Hs. destruct r as [n q a v ps].
+  destruct (okb_parts _ _ _ _ _ Hok) as (_ & _ & Hv & Ha & Hp).
+  unfold to_lossy. change (relation_name (arel_tree (al_rel bp (mkRel n q a v ps)) last)) with (@Ok str n).
+  rewrite (conv_version_arel _ last Hs), (a_acc_qual _ last Hs), a_acc_archs, a_acc_profs.
+  unfold al_rel at 1 2 3 4. cbn [a_qual a_ver a_archs a_profs RelLossy.r_name r_archqual RelLossy.r_archs r_version r_profiles].
+  assert (Ev : match option_map (fun cv => al_ver (fst cv) (snd cv)) v with
+               | None => Ok None
+               | Some v0 =>
+                 match rttext_of (map vpiece_tok (av_ver v0)) with
+                 | [] => Ok None
+                 | vt => match vc_of_str (av_op v0) with
+                         | None => Panic 11%N
+                         | Some o => match dv_parse vt with Some x => Ok (Some (o, x)) | None => Panic 12%N end
+                         end
+                 end
+               end = Ok v).
+  { destruct v as [[c x]|]; [|reflexivity]. cbn [option_map fst snd al_ver av_ver av_op].
+    destruct (RelLossyP.dv_canonical_ok x Hv) as [Ht Hpp]. rewrite (vpieces_text _ Ht).
+    pose proof (RelConvP.dv_canonical_print_nonempty x Hv) as Hne.
+    destruct (dv_print x) as [|c0 w] eqn:Ep; [congruence|]. rewrite Hpp.
+    replace (vc_of_str (vc_print c)) with (Some c) by (destruct c; reflexivity). reflexivity. }
+  rewrite Ev. f_equal.
+  assert (Eq : option_map aq_name (option_map (mk_aqual [] []) q) = q) by (destruct q; reflexivity).
+  assert (Ea : option_map (fun g => arch_fold (children (agroup_node g)) false) (option_map al_archs a) = a).
+  { destruct a as [l|]; [|reflexivity]. cbn [option_map]. rewrite (arch_fold_al l Ha). reflexivity. }
+  assert (Epr : map (map lprofile_of) (map (fun g => profile_fold (children (pgroup_node g)) [] []) (map al_group ps)) = ps).
+  { clear -Hp. induction ps as [|g r IH]; [reflexivity|]. cbn [forallb] in Hp. apply andb_true_iff in Hp. destruct Hp as [Hg Hr].
+    cbn [map]. rewrite (IH Hr). f_equal. rewrite pgroup_children, RelConvP.profile_fold_node, !map_map.
+    clear -Hg. induction g as [|p g IH]; [reflexivity|]. cbn [forallb] in Hg. apply andb_true_iff in Hg. destruct Hg as [Hp Hg].
+    cbn [map]. rewrite (RelConvP.acc_p_of p Hp), (IH Hg). reflexivity. }
+  rewrite Eq, Ea, Epr. reflexivity.
+Qed.
